@@ -4,6 +4,7 @@
 
 mod bound;
 mod client;
+mod engine;
 mod gen;
 mod updater;
 mod util;
@@ -43,6 +44,8 @@ fn lines() {
             "bnd" => bound::run_bnd(&toks[1..]),
             "cls" => bound::run_cls(&toks[1..]),
             "upd" => updater::run(&toks[1..]),
+            "shm" => engine::run(&toks[1..]),
+            "stall" => engine::run_stall(&toks[1..]),
             t => {
                 eprintln!("unknown tag {}", t);
                 std::process::exit(2);
